@@ -122,6 +122,26 @@ def case_ll(B, cfg):
             return
         B.fact('no-exception:pointwise after evaluateS1', True)
         B.eq('sum(pointwise) after evaluateS1 = value', np.sum(pw2), value)
+    # a second evaluation of the same object at other mechanistic
+    # parameters (arbitrarily close ones included): its own sum again
+    if n_out <= 2 and len(flat) <= 4:
+        psi2 = B.vars('psj', n_mech)
+        tot2 = None
+        for o, e in enumerate(ems):
+            order = sorted(range(len(times[o])), key=lambda j: times[o][j])
+            yb2 = [mm.sym_output('out%d' % o, times[o][j], psi2)
+                   for j in order]
+            ys = [obs[o][j] for j in order]
+            refs.em_assume_support(B, e, pars[o], yb2, ys)
+            for a, b in zip(yb2, ys):
+                t_ = refs.em_logpdf(B, e, pars[o], a, b)
+                tot2 = t_ if tot2 is None else tot2 + t_
+        if tot2 is not None:
+            th2 = psi2 + [p for ps in pars for p in ps]
+            th2 = np.array(th2, dtype=object) if B.symbolic else \
+                np.array(th2)
+            B.eq('second evaluation at other parameters = its own sum',
+                 ll(th2), tot2)
     if cfg.get('posterior', False):
         prior = SymPrior(B, len(theta))
         post = chi.LogPosterior(ll, prior)
